@@ -25,40 +25,28 @@ theorem next_flags (s : RS) :
   · exact ⟨rfl, fun h => by simp at h⟩
   · exact ⟨rfl, fun h => h⟩
 
-theorem genRangeLoop_lt (range zone : Nat) (hr : 0 < range) (fuel : Nat) (s : RS)
-    (h : (RS.genRangeLoop range zone fuel s).2.short = false) :
+theorem genRangeLoop_lt (range zone : Nat) (hr : 0 < range) (fuel : Nat) (s : RS) :
     (RS.genRangeLoop range zone fuel s).1 < range := by
   induction fuel generalizing s with
-  | zero => simp [RS.genRangeLoop] at h
+  | zero => exact hr
   | succ f ih =>
-    unfold RS.genRangeLoop at h ⊢
-    simp only at h ⊢
+    unfold RS.genRangeLoop
+    simp only
     split
-    · rename_i hs
-      rw [if_pos hs] at h
-      simp only at h
-      rw [h] at hs; cases hs
-    · rename_i hs
-      rw [if_neg hs] at h
-      split
+    · exact hr
+    · split
       · simp only
         rw [Nat.div_lt_iff_lt_mul (by simp [RS.two64])]
-        exact Nat.mul_lt_mul_of_lt_of_le (next_lt s) (Nat.le_refl _) hr |> fun h => by
-          rw [Nat.mul_comm range]; exact h
-      · rename_i hz
-        rw [if_neg hz] at h
-        exact ih _ h
+        have := Nat.mul_lt_mul_of_lt_of_le (next_lt s) (Nat.le_refl range) hr
+        rw [Nat.mul_comm range]; exact this
+      · exact ih _
 
-theorem genRange_lt (rs : RS) (n : Nat) (h1 : (rs.genRange n).2.short = false)
-    (h2 : (rs.genRange n).2.panicked = false) : (rs.genRange n).1 < n := by
-  unfold RS.genRange at h1 h2 ⊢
-  split
-  · rename_i hn
-    rw [if_pos hn] at h2
-    simp at h2
-  · rename_i hn
-    rw [if_neg hn] at h1
-    exact genRangeLoop_lt n _ (Nat.pos_of_ne_zero hn) _ _ h1
+/-- `gen_range(0..n)` answers below `n` (also the placeholder answers of the model when the
+script is exhausted) -/
+theorem genRange_lt (rs : RS) (n : Nat) (hn : n ≠ 0) : (rs.genRange n).1 < n := by
+  unfold RS.genRange
+  rw [if_neg hn]
+  exact genRangeLoop_lt n _ (Nat.pos_of_ne_zero hn) _ _
 
 /-! ### the head of the walk is a leg that exists -/
 
@@ -71,24 +59,17 @@ theorem loopStart_head (slots : Slots) (rs rs' : RS) (p : Nat) (leg : Leg)
   simp only at h
   split at h
   · cases h
-  · rename_i p' hp
+  · rename_i p' b hp
     split at h
-    · rename_i op hop
-      split at h
-      · cases h
-      · rename_i hfl
-        injection h with h1 _
-        injection h1 with h1
-        injection h1 with h1 h2
-        subst h1
-        refine ⟨op, hop, ?_⟩
-        rw [← h2]
-        simp only [Bool.or_eq_true, not_or, Bool.not_eq_true] at hfl
-        have f := next_flags ((rs.genRange (countOps slots)).2.genRange op.vars.length).2
-        have e : ∀ s : RS, s.genStdBool.2 = s.next.2 := fun s => rfl
-        rw [e] at hfl
-        exact genRange_lt _ _ (f.2 hfl.2) (by rw [← f.1]; exact hfl.1)
     · cases h
+    · injection h with h1 _
+      injection h1 with h1
+      injection h1 with h1 h2
+      subst h1
+      obtain ⟨j, op, hj, hop, hr, _⟩ := (pickLeg_iff slots 0 _ p' b).mp hp
+      have : j = p' := by omega
+      subst this
+      exact ⟨op, hop, by rw [← h2]; exact hr⟩
 
 theorem moveOn_head (slots : Slots) (st st' : List Bool) (pos : Nat) (op' : Op) (ex : Leg)
     (p' r' : Nat) (h : moveOn slots st pos op' ex = (st', some (p', r'))) :
